@@ -157,3 +157,44 @@ Qed.
    returns without an error are exactly the server's *)
 Theorem read_all_faithful dat outs b : Faithful dat outs -> read_all outs [] = Some (Some b) -> b = dat.
 Proof. intros H. apply read_all_spec. apply valid_outs_iff. exact H. Qed.
+
+(* ---- while the download runs ------------------------------------------------------------ *)
+Lemma copy_trace_into_temp fuel d : forall b evs acc,
+  Forall (fun d' => adv d' = adv d) (copy_trace fuel true d b evs acc).
+Proof.
+  induction fuel as [|fuel IH]; intros b evs acc; [constructor|].
+  cbn [copy_trace]. destruct (body_read b copy_buf evs) as [[[out e] b'] evs'].
+  destruct e; repeat constructor. apply IH.
+Qed.
+
+(* At every moment of a download through the cache directory — after the temporary file was
+   created, after every body read of the copy, and when retrieveAndSaveFile has returned —
+   what another process finds under the final name is nothing, or exactly the server's bytes:
+   a partially written file is never advertised (framed response; for every cut). *)
+Theorem retrieve_never_advertises_partial cs dat c rds d :
+  cshape_okb cs = true -> framed_ev c = true -> adv d = None ->
+  Forall (fun d' => adv d' = None \/ adv d' = Some dat) (retrieve_trace cs true dat c rds d).
+Proof.
+  intros Hcs Hfr Hadv. unfold retrieve_trace.
+  assert (Hd : adv d = None \/ adv d = Some dat) by (left; exact Hadv).
+  destruct c as [| | |k0|k0 n0]; try discriminate Hfr; try (constructor; [exact Hd | constructor]).
+  all: constructor; [left; exact Hadv|]; apply Forall_app; split;
+    [eapply Forall_impl; [|apply copy_trace_into_temp]; intros a Ha; left; rewrite Ha; exact Hadv|].
+  all: pose proof (cached_fetch_complete_or_error cs dat _ rds d Hcs Hfr Hadv) as (d' & r & rds' & Hf & _ & Hr);
+    unfold cached_fetch in Hf; rewrite Hadv in Hf;
+    match type of Hf with context [retrieve ?a ?b ?c ?e ?f] => destruct (retrieve a b c e f) as [[[d1 ok] r1]| | |] end;
+    cbn [rbind] in Hf; try discriminate; inversion Hf; subst d' r rds';
+    constructor; [|constructor]; destruct Hr as [[_ Hx] | [_ Hx]]; [right | left]; exact Hx.
+Qed.
+
+(* ... which is a fact about where the copy goes: written straight into the file that carries
+   the final name, two of five bytes are there for every reader while the download runs *)
+Lemma direct_write_advertises_partial :
+  exists dat rds d',
+    List.In d' (retrieve_trace {| copy_decides := true; removes_tmp := true; copy_first := true |} false dat CServe rds
+                  {| adv := None; tmps := [] |}) /\
+    adv d' = Some [1; 2]%N /\ dat = [1; 2; 3; 4; 5]%N.
+Proof.
+  exists [1; 2; 3; 4; 5]%N, [ {| rk := 2; rfail := false; reager := false |}; {| rk := 1; rfail := true; reager := false |} ].
+  eexists. split; [vm_compute; right; left; reflexivity|]. split; reflexivity.
+Qed.
